@@ -74,12 +74,25 @@ def recurrence(m, a, b, kw):
     return None
 
 
-def check_matches(matches, ref, label):
-    """ref: the affinity matrix before any match was traced"""
+def check_matches(matches, ref, label, starts=None):
+    """ref: the affinity matrix before any match was traced; starts: the cell (matrix coordinates) each match was traced from"""
     used = {}
+    avail = np.array(ref, dtype=float)
+    avail[0, :] = NINF
+    avail[:, 0] = NINF
     for k, path in enumerate(matches):
         if not path:
             return '%s: match %d is empty' % (label, k)
+        if starts is not None:
+            # traced from a maximum of the cells that are still available
+            r0, c0 = starts[k]
+            best = float(np.max(avail))
+            if not (0 <= r0 < avail.shape[0] and 0 <= c0 < avail.shape[1]) or not close(float(avail[r0, c0]), best):
+                return '%s: match %d starts at cell %s (value %r), the maximum of the available cells is %r' % (
+                    label, k, (int(r0), int(c0)), float(avail[r0, c0]) if (0 <= r0 < avail.shape[0] and 0 <= c0 < avail.shape[1]) else None, best)
+        for (x, y) in path:
+            if 0 <= x + 1 < avail.shape[0] and 0 <= y + 1 < avail.shape[1]:
+                avail[int(x) + 1, int(y) + 1] = NINF
         for (p, q) in zip(path, path[1:]):
             if (q[0] - p[0], q[1] - p[1]) not in ((1, 1), (1, 0), (0, 1)):
                 return '%s: match %d step %s -> %s' % (label, k, tuple(p), tuple(q))
@@ -162,14 +175,16 @@ for it in range(n):
                                            window=kw['window'], use_c=use_c)
                     lc.align()
                     k1 = rng.choice([1, 2, 3])
-                    got = [list(map(tuple, m.path)) for m in lc.kbest_matches(k=k1, minlen=1, buffer=0, restart=True)]
+                    ms = list(lc.kbest_matches(k=k1, minlen=1, buffer=0, restart=True))
                     # a second call that continues the search must not hand out cells of the first
-                    got += [list(map(tuple, m.path)) for m in lc.kbest_matches(k=2, minlen=1, buffer=0, restart=False)]
+                    ms += list(lc.kbest_matches(k=2, minlen=1, buffer=0, restart=False))
+                    got = [list(map(tuple, m.path)) for m in ms]
+                    starts = [(int(m.row), int(m.col)) for m in ms]
                 evaluations += 1
                 # reference matrix: Python affinity matrix with the instance's only_triu
                 kw2 = dict(kw, only_triu=lc.only_triu)
                 ref = dtw.warping_paths_affinity(a, b, **kw2)[1] if not use_c else dtw.warping_paths_affinity_fast(a, b, **kw2)[1]
-                err = check_matches(got, ref, label)
+                err = check_matches(got, ref, label, starts)
                 if err:
                     report(label, a, b, kw, err, matches=[[list(map(int, p)) for p in m] for m in got])
             except Exception as e:      # noqa
